@@ -54,8 +54,6 @@ def Leniency.legacy : Leniency :=
   { enumFold := true, typenameKey := true, numericStrings := true, fractionalInt := true,
     jsonNumberAsString := true, flatNested := true }
 
-def parseIntOk (t : Bytes) : Bool := match parseInt t with | .ok _ => true | _ => false
-def parseFloatOk (t : Bytes) : Bool := match parseFloat t with | .ok => true | _ => false
 
 def intOK (L : Leniency) : GoVal → Bool
   | .int _ _ => true
@@ -98,8 +96,7 @@ def enumOK (L : Leniency) (d : Definition) : GoVal → Bool
   | .jsonNumber x => L.jsonNumberAsString && enumNameOK L d x
   | _ => false
 
-def isBuiltinScalarName (n : Name) : Bool :=
-  n = str "Int" || n = str "Float" || n = str "String" || n = str "Boolean" || n = str "ID"
+def isBuiltinScalarName (n : Name) : Bool := (builtinOf n).isSome
 
 /-- a non-null value that is neither a list nor a map, against the named type `n` -/
 def leafOK (L : Leniency) (s : Schema) (n : Name) (v : GoVal) : Bool :=
@@ -108,12 +105,13 @@ def leafOK (L : Leniency) (s : Schema) (n : Name) (v : GoVal) : Bool :=
   | some d =>
     match d.kind with
     | .scalar =>
-      if n = str "Int" then intOK L v
-      else if n = str "Float" then floatOK L v
-      else if n = str "String" then stringOK L v
-      else if n = str "Boolean" then boolOK v
-      else if n = str "ID" then idOK L v
-      else true
+      match builtinOf n with
+      | some .int => intOK L v
+      | some .float => floatOK L v
+      | some .string => stringOK L v
+      | some .boolean => boolOK v
+      | some .id => idOK L v
+      | none => true                                -- a custom scalar accepts every non-null value
     | .enum => enumOK L d v
     | _ => false
 
